@@ -437,9 +437,22 @@ pub fn run(tier: Tier) -> RunOutcome {
             // the header must keep describing the problem actually being solved
             flip_presolve: chance("flip_presolve", 1, 5),
             flip_equil: chance("flip_equil", 1, 5),
+            flip_verbose: chance("flip_verbose", 1, 6),
             ..Default::default()
         })
         .collect();
+    // which solves print: settings.verbose may be toggled between solves
+    let mut verbose_at: Vec<bool> = vec![];
+    {
+        let mut vb = verbose;
+        for op in &ops {
+            if op.flip_verbose {
+                vb = !vb;
+            }
+            verbose_at.push(vb);
+        }
+    }
+    let verbose = verbose_at.iter().any(|v| *v); // from here on: does any solve print
     let mut profile = ClockProfile::fine(choose("clkseed", 1 << 16) as u64);
     profile.creep = 1_000_000;
     for op in ops.iter_mut() {
@@ -602,6 +615,9 @@ pub fn run(tier: Tier) -> RunOutcome {
                 if op.flip_equil {
                     sv.settings.equilibrate_enable = !sv.settings.equilibrate_enable;
                 }
+                if op.flip_verbose {
+                    sv.settings.verbose = !sv.settings.verbose;
+                }
                 if sv_solve(5, &mut sv).is_err() {
                     ok = false;
                     break;
@@ -702,14 +718,16 @@ pub fn run(tier: Tier) -> RunOutcome {
         match parse_output(&buf) {
             Err(e) => out.violations.push(Violation::new("C20.unparsable_output", e)),
             Ok(parsed) => {
-                if parsed.len() != snaps4.len() {
+                let printing: Vec<usize> = (0..snaps4.len()).filter(|k| verbose_at[*k]).collect();
+                if parsed.len() != printing.len() {
                     out.violations.push(Violation::new(
                         "C20.unparsable_output",
-                        format!("{} solve blocks in the output for {} solves", parsed.len(), snaps4.len()),
+                        format!("{} solve blocks in the output for {} verbose solves", parsed.len(), printing.len()),
                     ));
                 } else {
                     let mut st = settings.clone();
-                    for (k, p) in parsed.iter().enumerate() {
+                    let mut pi = 0;
+                    for k in 0..snaps4.len() {
                         st.time_limit = ops[k].time_limit;
                         st.max_iter = ops[k].max_iter;
                         if ops[k].flip_presolve {
@@ -718,6 +736,11 @@ pub fn run(tier: Tier) -> RunOutcome {
                         if ops[k].flip_equil {
                             st.equilibrate_enable = !st.equilibrate_enable;
                         }
+                        if !verbose_at[k] {
+                            continue;
+                        }
+                        let p = &parsed[pi];
+                        pi += 1;
                         out.violations.extend(check_log(p, &snaps4[k], &st, &prob, &eff, &format!("solve #{}", k)));
                     }
                 }
